@@ -1,5 +1,5 @@
 (** C09 / C10 — proofs about the run-id gate machine of Cancel/Model.v. *)
-From Verif Require Import Cancel.Model.
+From Verif Require Import Cancel.Model Cancel.Cases.
 
 (** ---------------------------------------------------------------- lists *)
 
@@ -573,28 +573,203 @@ Proof.
   - rewrite Ha1, Nat.eqb_refl. apply (Hset st (a :: stk) true ph []); simpl; auto.
 Qed.
 
-Lemma follow_solo S bs : forall st t th,
+Lemma follow_solo_log S bs : forall st t th,
   basic_set F S = true -> rootid st = iid st -> nth_error (threads st) t = Some th -> live S st th ->
-  out (solo F st t bs) = grun F (erase th) bs ++ out st.
+  log (solo F st t bs) = map (fun x => (t, x)) (grun F (erase th) bs) ++ log st.
 Proof.
   induction bs as [|b bs IH]; intros st t th HS Hroot Hth Hl; simpl; auto.
   destruct (follow S st t b th HS Hroot Hth Hl) as (th' & A & B & C & D).
   rewrite (IH (step F st t b) t th'); auto.
-  - rewrite B. unfold out. rewrite D, map_app, map_map. simpl. rewrite map_id, app_assoc. auto.
+  - rewrite B, D, map_app, app_assoc. auto.
   - rewrite step_rootid, step_iid; auto.
+Qed.
+
+Lemma follow_solo S bs st t th :
+  basic_set F S = true -> rootid st = iid st -> nth_error (threads st) t = Some th -> live S st th ->
+  out (solo F st t bs) = grun F (erase th) bs ++ out st.
+Proof.
+  intros. unfold out. rewrite (follow_solo_log S bs st t th); auto.
+  rewrite map_app, map_map. simpl. rewrite map_id. auto.
 Qed.
 
 (** every use of named functions through a later Execute, in every reachable state (any number of
     cancelled evaluations before), performs exactly the operations G prescribes *)
+Lemma named_use_log S st p bs :
+  basic_set F S = true -> Forall (fun ph => In (phase_fn ph) S) p ->
+  log (solo F (do_action F st (AExecute p)) (length (threads st)) bs)
+  = map (fun x => (length (threads st), x)) (grun F ([], false, p) bs) ++ log st.
+Proof.
+  intros HS Hp.
+  rewrite (follow_solo_log S bs _ _ (mkThread [] false p)); auto.
+  - simpl. rewrite nth_error_app2, Nat.sub_diag; auto.
+  - split; simpl; auto.
+Qed.
+
 Lemma named_use S h p bs :
   basic_set F S = true -> Forall (fun ph => In (phase_fn ph) S) p ->
   out (solo F (do_action F (run F fresh h) (AExecute p)) (length (threads (run F fresh h))) bs)
   = grun F ([], false, p) bs ++ out (run F fresh h).
 Proof.
-  intros HS Hp.
-  rewrite (follow_solo S bs _ _ (mkThread [] false p)); auto.
-  - simpl. rewrite nth_error_app2, Nat.sub_diag; auto.
-  - split; simpl; auto.
+  intros HS Hp. unfold out. rewrite (named_use_log S); auto.
+  rewrite map_app, map_map. simpl. rewrite map_id. auto.
 Qed.
 
 End P.
+
+(** ---------------------------------------------------------------- C09: the theorem as one statement *)
+
+Lemma gate_partial F h sched u :
+  let s1 := run F fresh h in
+  let s2 := steps F (do_action F s1 AStop) sched in
+  no_pending s1 = true ->
+  evs u (log s2) <= evs u (log s1) + 1
+  /\ tks u (log s2) <= tks u (log s1) + 1
+  /\ (length (threads s1) <= u -> evs u (log s2) <= evs u (log s1))
+  /\ (forall th, nth_error (threads s1) u = Some th -> stuck F (do_action F s1 AStop) u = false ->
+        length (stack th) + 2 <= occ u sched -> exited s2 u = true).
+Proof.
+  intros s1 s2 Hp. repeat split.
+  - apply gate_ops; auto.
+  - apply gate_ticks; auto.
+  - intros; apply gate_new_threads; auto.
+  - intros; eapply gate_exits; eauto.
+Qed.
+
+(** non-vacuity: the program of the init-list witness with only [main] left; the cancellation finds
+    the thread with a tick in flight; exactly that one tick still happens, then the thread exits *)
+Lemma gate_partial_inhabited :
+  let s1 := run F_init fresh (session P_main_only ++ alone 0 8) in
+  let s2 := steps F_init (do_action F_init s1 AStop) (repeat (0, false) 6) in
+  no_pending s1 = true /\ tks 0 (log s1) = 1 /\ tks 0 (log s2) = 2 /\ exited s2 0 = true.
+Proof. vm_compute. auto. Qed.
+
+(** ---------------------------------------------------------------- C09: refutations *)
+
+(** cancel inside the first init(): the second init() and main() run to completion afterwards *)
+Lemma initlist_refuted :
+  let s1 := run F_init fresh H_init in
+  let s2 := steps F_init (do_action F_init s1 AStop) (repeat (0, false) 40) in
+  no_pending s1 = false
+  /\ ticks_of (new_events s1 s2) = [1; 2; 2; 3; 3; 3]
+  /\ evs 0 (log s2) = evs 0 (log s1) + 6
+  /\ exited s2 0 = true.
+Proof. vm_compute. auto. Qed.
+
+Lemma contract_refuted : ~ C09_contract.
+Proof.
+  intros H. destruct (H F_init H_init (repeat (0, false) 40) 0) as [H1 _].
+  vm_compute in H1. lia.
+Qed.
+
+(** REPL style: the cancelled statements run in the root frame, whose generation the next Execute
+    overwrites: the old goroutine comes back to life and finishes its statements *)
+Lemma rootframe_refuted :
+  let s1 := run F_root fresh H_root in
+  let s2 := run F_root s1 H_root_next in
+  tks 0 (log s1) = 2 /\ ticks_of (new_events s1 s2) = [3; 4; 5; 6]
+  /\ (let s2' := run F_root s1 ([AStop] ++ alone 0 20) in ticks_of (new_events s1 s2') = [3]).
+Proof. vm_compute. auto. Qed.
+
+Lemma contract_session_refuted : ~ C09_contract_session.
+Proof.
+  intros H. specialize (H F_root H_root (tl H_root_next) 0). vm_compute in H.
+  assert (1 <= 1) as E by lia. specialize (H E). lia.
+Qed.
+
+(** a context that has already expired: stop() runs first, Execute then adopts the new generation
+    and nothing ever stops the evaluation *)
+Lemma expired_refuted :
+  ticks_of (new_events (run F_root fresh [ABegin; AStop]) (run F_root fresh H_expired)) = [1; 2; 3; 4; 5; 6].
+Proof. vm_compute. auto. Qed.
+
+(** a function literal from an earlier evaluation, blocked on a channel: this cancellation's
+    channel is not the one it waits on; it stays blocked however often it is scheduled *)
+Lemma stalechan_refuted :
+  let s1 := run F_stale fresh H_stale in
+  let s2 := steps F_stale (do_action F_stale s1 AStop) (repeat (1, false) 50) in
+  no_pending s1 = true /\ in_host_call F_stale s1 1 = false
+  /\ stuck F_stale (do_action F_stale s1 AStop) 1 = true /\ exited s2 1 = false.
+Proof. vm_compute. auto. Qed.
+
+Lemma contract_exits_refuted : ~ C09_contract.
+Proof.
+  intros H. destruct (H F_stale H_stale (repeat (1, false) 50) 1) as [_ H2].
+  specialize (H2 _ eq_refl). vm_compute in H2.
+  assert (4 <= 50) as E by lia. specialize (H2 eq_refl E). discriminate.
+Qed.
+
+(** ---------------------------------------------------------------- C10 on histories *)
+
+Lemma firstn_app_exact {A} (a b : list A) : firstn (length (a ++ b) - length b) (a ++ b) = a.
+Proof.
+  rewrite app_length. replace (length a + length b - length b) with (length a + 0) by lia.
+  rewrite firstn_app_2. simpl. apply app_nil_r.
+Qed.
+
+Definition S10 : list nat := [0; 1; 3; 4; 5; 7].
+
+Lemma filter_map_same t (G : list (option nat)) :
+  filter (fun e : event => fst e =? t) (map (fun x => (t, x)) G) = map (fun x => (t, x)) G.
+Proof. induction G; simpl; auto. rewrite Nat.eqb_refl, IHG; auto. Qed.
+
+Lemma use_result st st2 t G ticks :
+  log st2 = map (fun x => (t, x)) G ++ log st ->
+  list_nat_eqb (ticks_of (map (fun x : option nat => (t, x)) G)) ticks = true ->
+  list_nat_eqb (ticks_of (filter (fun e => fst e =? t) (new_events st st2))) ticks = true.
+Proof. intros E H. unfold new_events. rewrite E, firstn_app_exact, filter_map_same. exact H. Qed.
+
+Lemma S10_basic : basic_set F10 S10 = true.
+Proof. vm_compute. auto. Qed.
+
+Lemma y_use_eval st k :
+  In (use_body k) S10 ->
+  list_nat_eqb (ticks_of (map (fun x : option nat => (nthreads st, x)) (grun F10 ([], false, [PRoot (use_body k)]) use_bits))) (use_ticks k) = true ->
+  snd (y_use st k VEval) = true /\ snd (y_use st k VEvalCtx) = true.
+Proof.
+  intros Hin Hg. unfold y_use; cbv zeta; simpl snd. split.
+  - eapply use_result; [|exact Hg].
+    apply (named_use_log F10 S10 st [PRoot (use_body k)] use_bits S10_basic). constructor; auto.
+  - eapply use_result; [|exact Hg].
+    apply (named_use_log F10 S10 (do_action F10 st ABegin) [PRoot (use_body k)] use_bits S10_basic). constructor; auto.
+Qed.
+
+Lemma y_use_named st k v : is_named k v = true -> snd (y_use st k v) = true.
+Proof.
+  intros Hn.
+  assert (H : snd (y_use st k VEval) = true /\ snd (y_use st k VEvalCtx) = true).
+  { destruct k; try (destruct v; discriminate); apply y_use_eval; try (simpl; tauto);
+      generalize (nthreads st); intros n; vm_compute; reflexivity. }
+  destruct v; try (destruct k; discriminate); tauto.
+Qed.
+
+(** all histories: every use of a named function, a method or a method value through a later
+    Eval / EvalWithContext yields what it yielded before any cancellation *)
+Lemma named_partial h : forall st, uses_ok is_named h (y_hist st h).
+Proof.
+  induction h as [|e h IH]; intros st; [exact I|].
+  destruct e as [|k v|c]; cbn [y_hist uses_ok]; try apply IH.
+  pose proof (y_use_named st k v) as H. destruct (y_use st k v) as [st' r]. simpl in H. split; auto.
+Qed.
+
+Lemma named_partial_inhabited :
+  y_hist start10 [HCancel CBusy; HUse KNamed VEval; HCancel CBlocked; HUse KMethod VEvalCtx; HCancel CExpRan; HUse KMethVal VEval]
+  = [true; true; true].
+Proof. vm_compute. auto. Qed.
+
+Lemma closure_refuted :
+  y_hist start10 [HUse KClosVar VEval; HCancel CBusy; HUse KClosVar VEval; HUse KClosVar VHost; HUse KNamed VEval; HUse KClosVar VEval]
+  = [true; false; false; true; false].
+Proof. vm_compute. auto. Qed.
+
+Lemma hostheld_refuted :
+  y_hist start10 [HUse KNamed VHost; HCancel CBusy; HUse KNamed VHost; HUse KMethod VHost; HUse KNamed VEval; HUse KNamed VHost]
+  = [true; false; false; true; true].
+Proof. vm_compute. auto. Qed.
+
+Lemma plaineval_chan_refuted :
+  y_hist start10 [HUse KChanFn VEval; HCancel CBusy; HUse KChanFn VEval; HUse KChanFn VEvalCtx; HUse KChanFn VEval]
+  = [true; false; true; true].
+Proof. vm_compute. auto. Qed.
+
+Lemma c10_contract_refuted : ~ C10_contract.
+Proof. intros H. specialize (H [HCancel CBusy; HUse KClosVar VEval]). vm_compute in H. discriminate. Qed.
